@@ -22,6 +22,122 @@ import c01
 from c01 import PROTOS, ICOQ, IACC, RELAYED, P, iface_cls, public_members, coq_protos, coq_str
 
 
+# ----------------------------------------------------------------------- device profiles
+
+HAP = ":".join(["aa" * 32, "bb" * 32, "cc" * 18, "dd" * 18])
+LEGACY = "aabbccdd:" + "ee" * 32
+COMP = HAP
+
+# AirPlay feature-flag variants (names of AirPlayFlags members; encoded at run time)
+FLAGS = {
+    "none": [],
+    "v1_video": ["SupportsAirPlayVideoV1", "SupportsLegacyPairing"],
+    "v1_audio": ["SupportsLegacyPairing"],
+    "v2_full": ["SupportsAirPlayVideoV1", "SupportsAirPlayVideoV2", "SupportsUnifiedMediaControl", "HasUnifiedAdvertiserInfo",
+                "SupportsCoreUtilsPairingAndEncryption", "SupportsHKPairingAndAccessControl", "SupportsSystemPairing"],
+    "v2_full_no_unified_adv": ["SupportsAirPlayVideoV1", "SupportsAirPlayVideoV2", "SupportsUnifiedMediaControl",
+                               "SupportsCoreUtilsPairingAndEncryption", "SupportsHKPairingAndAccessControl"],
+    "v2_audio": ["SupportsUnifiedMediaControl", "HasUnifiedAdvertiserInfo", "SupportsCoreUtilsPairingAndEncryption",
+                 "SupportsSystemPairing"],
+}
+
+# name, model identifier, OS version, build, flag variant, AirPlay/RAOP credentials, Companion credentials, mrp_tunnel
+PROFILES = [
+    ("atv3_legacy", "AppleTV3,2", "8.4.4", "12H937", "v1_video", None, None, "auto"),
+    ("atv4_tvos12_hap", "AppleTV5,3", "12.4", "16M568", "v2_full", HAP, COMP, "auto"),
+    ("atv4k_tvos15_hap_tunnel_auto", "AppleTV6,2", "15.0", "19J346", "v2_full", HAP, COMP, "auto"),
+    ("atv4k_tvos15_hap_tunnel_disabled", "AppleTV6,2", "15.0", "19J346", "v2_full", HAP, COMP, "disable"),
+    ("atv4k_tvos15_no_credentials", "AppleTV6,2", "15.0", "19J346", "v2_full", None, None, "auto"),
+    ("atv4k_gen3_tvos17_tunnel_forced", "AppleTV14,1", "17.0", "21J354", "v2_full", None, COMP, "force"),
+    ("atv4k_tvos16_legacy_credentials", "AppleTV11,1", "16.0", "20J373", "v2_full", LEGACY, None, "auto"),
+    ("atv4k_tvos15_no_unified_advertiser", "AppleTV6,2", "15.0", "19J346", "v2_full_no_unified_adv", HAP, COMP, "auto"),
+    ("homepod_transient", "AudioAccessory1,1", "15.0", "19J346", "v2_audio", None, None, "auto"),
+    ("homepod_mini_hap", "AudioAccessory5,1", "16.0", "20J373", "v2_audio", HAP, COMP, "auto"),
+    ("homepod_gen2_tunnel_forced", "AudioAccessory6,1", "17.0", "21J354", "v2_audio", None, None, "force"),
+    ("airport_express", "AirPort10,115", "7.8.1", "", "v1_audio", None, None, "auto"),
+    ("third_party_speaker", "Sonos One", "1.0", "", "v2_audio", None, None, "auto"),
+    ("mac", "MacBookPro16,1", "12.0", "21A559", "v2_full", None, None, "auto"),
+]
+
+
+def profile_services(prof):
+    """Per protocol: (properties, credentials) carrying the profile's model / OS / flags in every
+    property the code reads them from (model, am, rpmd; osvers, ov, systembuildversion; features, ft)."""
+    from pyatv.protocols.airplay.utils import AirPlayFlags
+    name, model, osv, build, fl, cred, comp, tunnel = prof
+    v = 0
+    for n in FLAGS[fl]:
+        v |= int(getattr(AirPlayFlags, n))
+    feat = "0x%X,0x%X" % (v & 0xFFFFFFFF, v >> 32) if v >> 32 else "0x%X" % v
+    mac = "AA:BB:CC:DD:EE:FF"
+    return {
+        "MRP": ({"systembuildversion": build, "macaddress": mac, "allowpairing": "YES", "name": name, "modelname": model}, None),
+        "DMAP": ({"ctln": name, "machine name": name, "hg": "00000000-1234-5678-9abc-def012345678"}, "0x0000000000000001"),
+        "Companion": ({"rpmd": model, "rpfl": "0x36782", "rpvr": "195.2"}, comp),
+        "AirPlay": ({"model": model, "osvers": osv, "features": feat, "deviceid": mac, "acl": "0", "psi": "P-1", "flags": "0x4"}, cred),
+        "RAOP": ({"am": model, "ov": osv, "ft": feat, "et": "0,3,5", "tp": "UDP", "sf": "0x4", "vs": "366.0"}, cred),
+    }
+
+
+async def profile_units(prof):
+    """Every SetupData yielded by every protocol's real setup() under the profile.
+    Returns ([unit dict with live SetupData], cleanup)."""
+    from ipaddress import IPv4Address
+    from pyatv import conf
+    from pyatv.core import MutableService, create_core
+    from pyatv.protocols import PROTOCOLS
+    from pyatv.settings import Settings, MrpTunnel
+    svcs = profile_services(prof)
+    units, cores = [], []
+    for src in PROTOS:
+        props, cred = svcs[src]
+        svc = MutableService("verif-id", P(src), 1234, props, credentials=cred)
+        cfg = conf.AppleTV(IPv4Address("127.0.0.1"), prof[0])
+        cfg.add_service(svc)
+        settings = Settings()
+        settings.protocols.airplay.mrp_tunnel = MrpTunnel(prof[7])
+        core = await create_core(cfg, svc, settings=settings)
+        cores.append(core)
+        for sd in PROTOCOLS[P(src)].setup(core):
+            units.append({"id": len(units), "src": src, "proto": sd.protocol.name, "sd": sd})
+
+    async def cleanup():
+        for c in cores:
+            try:
+                await c.session_manager.close()
+            except Exception:  # noqa
+                pass
+    return units, cleanup
+
+
+def unit_table(u):
+    """The static table of one unit: registered interfaces with the members their class overrides,
+    feature set, truthiness / subclass facts."""
+    sd = u["sd"]
+    ifs, truthy, sub = {}, True, True
+    for k, inst in sd.interfaces.items():
+        name = k.__name__
+        if name not in ICOQ:
+            raise ValueError("%s registers unknown interface %s" % (u["proto"], name))
+        truthy = truthy and bool(inst)
+        sub = sub and isinstance(inst, k)
+        ifs[name] = [m for m, _ in public_members(k) if c01.overrides_mro(type(inst), k, m)]
+    return {"id": u["id"], "src": u["src"], "proto": u["proto"], "ifaces": ifs,
+            "features": sorted(f.name for f in sd.features), "truthy": truthy, "subclass": sub}
+
+
+async def collect_profiles():
+    c01.quiet()
+    out = []
+    for prof in PROFILES:
+        units, cleanup = await profile_units(prof)
+        try:
+            out.append({"name": prof[0], "units": [unit_table(u) for u in units]})
+        finally:
+            await cleanup()
+    return out
+
+
 def emit_c13(t):
     L = []
     A = L.append
@@ -50,33 +166,26 @@ def emit_c13(t):
     A("].")
     A("")
     idx = {f["name"]: f["index"] for f in t["features"]}
-    A("(* SetupData.features yielded by each real setup() *)")
-    A("Definition feats (p : proto) : list feature :=\n  match p with")
-    for p in PROTOS:
-        A("  | %s => [%s]" % (p, "; ".join(str(idx[n]) for n in t["real_features"][p])))
-    A("  end.")
-    A("(* the protocol registers a (truthy) Features / a PushUpdater instance *)")
-    A("Definition has_features (p : proto) : bool :=\n  match p with")
-    for p in PROTOS:
-        A("  | %s => %s" % (p, common.cbool("Features" in t["real"][p])))
-    A("  end.")
-    A("Definition has_push (p : proto) : bool :=\n  match p with")
-    for p in PROTOS:
-        A("  | %s => %s" % (p, common.cbool("PushUpdater" in t["real"][p])))
-    A("  end.")
-    A("")
-    A("(* members of the base interface overridden by the class each real protocol registers in setup() *)")
-    A("Definition real_impl : list (proto * iface * list string) := [")
-    A(";\n".join("  (%s, %s, [%s])" % (p, ICOQ[i], "; ".join(coq_str(m) + "%string" for m in t["real"][p][i]))
-                 for p in PROTOS for i in t["real"][p]))
+    A("(* device profiles: every SetupData yielded by every protocol's real setup() under that profile")
+    A("   (service properties / credentials / settings as listed in harness/c13.py PROFILES) *)")
+    A("Definition profiles : list (string * list unit) := [")
+    ps = []
+    for pr in t["profiles"]:
+        us = []
+        for u in pr["units"]:
+            us.append("     {| u_id := %d; u_src := %s; u_proto := %s;\n        u_feats := [%s];\n        u_impl := [%s];\n        u_ok := %s |}" % (
+                u["id"], u["src"], u["proto"], "; ".join(str(idx[n]) for n in u["features"]),
+                ";\n                   ".join("(%s, [%s])" % (ICOQ[i], "; ".join(coq_str(m) + "%string" for m in ms)) for i, ms in u["ifaces"].items()),
+                common.cbool(u["truthy"] and u["subclass"])))
+        ps.append("  (%s%%string, [\n%s])" % (coq_str(pr["name"]), ";\n".join(us)))
+    A(";\n".join(ps))
     A("].")
-    A("Definition real_truthy : bool := %s." % common.cbool(t["real_truthy"]))
-    A("Definition real_subclass : bool := %s." % common.cbool(t["real_subclass"]))
     return "\n".join(L) + "\n"
 
 
 def gen(ctx):
     t = vloop.run(c01.collect, False)
+    t["profiles"] = vloop.run(collect_profiles)
     c01.write_if_changed(os.path.join(common.COQ, "C13", "Gen.v"), emit_c13(t))
     return t
 
